@@ -26,7 +26,7 @@ ALLK='{"fresh", "rlive", "rstream"}'
 ALLF='{"none", "client", "server"}'
 FILT='{"client", "server"}'
 EPHOPS='{"pub", "rem", "exp", "clear", "refresh"}'
-STROPS='{"pub", "rem", "exp", "sexp", "clear", "refresh"}'
+STROPS='{"pub", "rem", "exp", "sexp", "clear", "refresh", "poscheck"}'
 # ---- quick (exhaustive)
 cfg('quick_eph.cfg', Modes='{"eph"}', SSizes='{1}', Filts=ALLF, Ops=EPHOPS)
 for nm, ct, ds in (('coded', 'FALSE', 'FALSE'), ('fixed', 'TRUE', 'FALSE'), ('fixed2', 'TRUE', 'TRUE')):
